@@ -570,6 +570,35 @@ func (e *Engine) feasibleM(s *State, c *Term) (Verdict, *CachedModel) {
 	return v, nil
 }
 
+// decide replaces a condition by true/false when the path condition determines it (two cheap queries).
+func (e *Engine) decide(s *State, c *Term) *Term {
+	if c.IsConst() || s.InitMode > 0 {
+		return c
+	}
+	if s.model != nil {
+		if v, ok := s.model.Eval(c); ok {
+			// the cached model witnesses one side; only the other side needs the solver
+			if *v.B {
+				if e.feasible(s, Not(c)) == Unsat {
+					return TTrue
+				}
+				return c
+			}
+			if e.feasible(s, c) == Unsat {
+				return TFalse
+			}
+			return c
+		}
+	}
+	if e.feasible(s, c) == Unsat {
+		return TFalse
+	}
+	if e.feasible(s, Not(c)) == Unsat {
+		return TTrue
+	}
+	return c
+}
+
 // NoModelReuse disables answering feasibility questions from a cached model (diagnostics).
 var NoModelReuse = false
 
